@@ -21,7 +21,8 @@ def design_level(run):
     quick = run.tier == "quick"
     run.extra["mc_instances"] = {}
     for nm in (["MC_TreeCache_repaired_quick"] if quick else ["MC_TreeCache_repaired", "MC_Tree_A"]) + (["MC_Tree_Bq"] if quick else ["MC_Tree_B"]):
-        res = mc.run_mc(nm, workers=8, module="MC_TreeCache" if "TreeCache" in nm else "MC_Tree")
+        # (MC_Tree_A: 3.0 M states, 18 min on the idle machine with coverage on - the time limit leaves room for a loaded one)
+        res = mc.run_mc(nm, workers=12, module="MC_TreeCache" if "TreeCache" in nm else "MC_Tree", timeout=7200)
         run.tlc(res)
         run.extra["mc_instances"][nm] = {"states": res.distinct, "exhaustive": True}
     try:
